@@ -1,0 +1,120 @@
+//go:build verif
+
+// Contracts for package csv, read by the /verif VC generator (govc). Comments only.
+
+package csv
+
+// rowShape: a current row exists and has exactly as many cells as the header (the csv reader guarantees equal
+// field counts, see the assumed contract of encoding/csv.Reader.Read in /verif/engine/extras.go).
+//@ pure func rowShape(f *File) bool = f != nil && f.currentRow != nil && len(f.currentRow.cells) == len(f.headerContent)
+
+// headerOK: every index in the header map is a valid index into the header row.
+//@ pure func headerOK(f *File) bool = f != nil && (forall s string :: has(f.headerMap, s) ==> 0 <= f.headerMap[s] && f.headerMap[s] < len(f.headerContent))
+
+// BOMAwareCSVReader is glue around x/text and encoding/csv constructors: its contract is assumed (trusted), the
+// body is not verified.
+//@ func BOMAwareCSVReader
+//@   trusted
+//@   ensures result != nil && fresh(result) && !result.ReuseRecord
+
+//@ func New
+//@   props C01 C05
+//@   requires reader != nil
+//@   ensures [shape] result.1 == nil ==> result.0 != nil && fileOK(result.0) && result.0.currentRow == nil && result.0.rowNumber == 0 && len(result.0.missingRequiredColumns) == 0 && result.0.csvReader != nil && fresh(result.0)
+//@   ensures [by-name] result.1 == nil ==> (forall s string :: has(result.0.headerMap, s) ==> result.0.headerContent[result.0.headerMap[s]] == s)
+//@   ensures [complete] result.1 == nil ==> (forall j int :: 0 <= j && j < len(result.0.headerContent) ==> has(result.0.headerMap, result.0.headerContent[j]))
+//@   ensures [name] result.1 == nil ==> result.0.name == name
+//@   loop 1 invariant forall s string :: has(m, s) ==> 0 <= m[s] && m[s] < $i && firstRow[m[s]] == s
+//@   loop 1 invariant forall j int :: 0 <= j && j < $i ==> has(m, firstRow[j])
+//@   loop 1 invariant m != nil && fresh(m)
+
+//@ func (*File).RequiredColumn
+//@   props C01 C05 C10
+//@   requires headerOK(f)
+//@   ensures [same-file] result.f == f && result.s == s
+//@   ensures [present] old(has(f.headerMap, s)) ==> result.i == old(f.headerMap[s]) && 0 <= result.i && result.i < len(f.headerContent) && len(f.missingRequiredColumns) == old(len(f.missingRequiredColumns))
+//@   ensures [absent] !old(has(f.headerMap, s)) ==> result.i == -1 && len(f.missingRequiredColumns) == old(len(f.missingRequiredColumns)) + 1
+//@   ensures [valid-or-recorded] (0 <= result.i && result.i < len(f.headerContent)) || len(f.missingRequiredColumns) > 0
+//@   ensures [monotone] len(f.missingRequiredColumns) >= old(len(f.missingRequiredColumns))
+
+//@ func (*File).OptionalColumn
+//@   props C01 C05 C10
+//@   requires headerOK(f)
+//@   ensures [same-file] result.f == f
+//@   ensures [present] has(f.headerMap, s) ==> result.i == f.headerMap[s] && 0 <= result.i && result.i < len(f.headerContent)
+//@   ensures [absent] !has(f.headerMap, s) ==> result.i == -1
+//@   assigns nothing
+
+//@ func (*File).MissingRequiredColumns
+//@   props C05
+//@   requires p != nil
+//@   ensures len(result) == len(p.missingRequiredColumns)
+//@   assigns nothing
+
+//@ func (RequiredColumn).Read
+//@   props C01 C05 C09
+//@   requires rowShape(c.f) && 0 <= c.i && c.i < len(c.f.headerContent)
+//@   ensures [value] result == old(c.f.currentRow.cells[c.i])
+//@   ensures [blank-recorded] result == "" ==> len(c.f.currentRow.missingKeys) == old(len(c.f.currentRow.missingKeys)) + 1
+//@   ensures [present-untouched] result != "" ==> c.f.currentRow.missingKeys == old(c.f.currentRow.missingKeys)
+//@   ensures [monotone] len(c.f.currentRow.missingKeys) >= old(len(c.f.currentRow.missingKeys))
+//@   ensures [cells-kept] c.f.currentRow.cells == old(c.f.currentRow.cells)
+
+//@ func (OptionalColumn).Read
+//@   props C01 C05 C10
+//@   requires c.i < 0 || (rowShape(c.f) && c.i < len(c.f.headerContent))
+//@   ensures [absent] c.i < 0 ==> result == ""
+//@   ensures [present] c.i >= 0 ==> result == c.f.currentRow.cells[c.i]
+//@   assigns nothing
+
+// C10: "leaving the cell blank and omitting the column altogether are equivalent, and both yield that default"
+//@ func (OptionalColumn).ReadOr
+//@   props C10 C01 C05
+//@   requires c.i < 0 || (rowShape(c.f) && c.i < len(c.f.headerContent))
+//@   ensures [absent-column] c.i < 0 ==> result == s
+//@   ensures [blank-cell] c.i >= 0 && c.f.currentRow.cells[c.i] == "" ==> result == s
+//@   ensures [value] c.i >= 0 && c.f.currentRow.cells[c.i] != "" ==> result == c.f.currentRow.cells[c.i]
+//@   canary [must-fail] c.i >= 0 ==> result == s
+//@   assigns nothing
+
+//@ func (*File).NextRow
+//@   props C01 C05 C09
+//@   requires f != nil && f.csvReader != nil && len(f.headerContent) == nfields(f.csvReader)
+//@   ensures [row] result ==> rowShape(f) && len(f.currentRow.missingKeys) == 0 && f.rowNumber == old(f.rowNumber) + 1
+//@   ensures [end] !result ==> f.currentRow == nil && f.rowNumber == old(f.rowNumber)
+//@   ensures [progress] result ==> old(remaining(f.csvReader)) > 0 && remaining(f.csvReader) < old(remaining(f.csvReader))
+//@   ensures [finite] remaining(f.csvReader) <= old(remaining(f.csvReader))
+
+// fileOK: the representation invariant of *File that New establishes and every method preserves.
+//@ pure func fileOK(f *File) bool = headerOK(f) && f.csvReader != nil && len(f.headerContent) == nfields(f.csvReader)
+
+//@ func (*File).MissingRowKeys
+//@   props C05 C09
+//@   requires f != nil && f.currentRow != nil
+//@   ensures result == f.currentRow.missingKeys
+//@   assigns nothing
+
+//@ func (*File).RowContent
+//@   props C09 C05
+//@   requires f != nil
+//@   ensures [header-before-first-row] f.rowNumber == 0 ==> result == f.headerContent
+//@   ensures [copy] f.rowNumber != 0 && f.currentRow != nil ==> len(result) == len(f.currentRow.cells) && fresh(result) && (forall j int :: 0 <= j && j < len(result) ==> result[j] == f.currentRow.cells[j])
+//@   assigns nothing
+
+//@ func (*File).RowNumber
+//@   props C09 C05
+//@   requires f != nil
+//@   ensures result == f.rowNumber
+//@   assigns nothing
+
+//@ func (*File).Name
+//@   props C09 C05
+//@   requires f != nil
+//@   ensures result == f.name
+//@   assigns nothing
+
+//@ func (*File).HeaderContent
+//@   props C09 C05
+//@   requires f != nil
+//@   ensures result == f.headerContent
+//@   assigns nothing
